@@ -8,6 +8,7 @@ import Gama.Model.CovBand
 import Gama.Model.ReaderPoint
 import Gama.Model.XmlRecords
 import Gama.Gen.XmlSkeleton
+import Gama.Model.Consumers
 open Gama Gama.Proto Gama.XmlEsc Gama.CovBand Gama.ReaderPoint Gama.XmlRec Gama.XmlDoc
 
 def unhexBytes (s : String) : Option (List UInt8) :=
@@ -183,6 +184,53 @@ def parseRToks : List String → List RTok → Option (List RTok)
   | "A" :: a :: r, .stag n as e :: acc => parseRToks r (.stag n (as ++ [a]) e :: acc)
   | _, _ => none
 
+
+/-! ### consumers (compare-xyz, gama-local-deformation): ids are byte strings ordered as `std::string` -/
+
+abbrev CId := List Nat
+
+/-- `<hexid> hxy hz x y z indx indy indz` … up to `|` -/
+def parseAPts : List String → Option (List (Consumers.APoint CId Float) × List String)
+  | [] => some ([], [])
+  | "|" :: rest => some ([], rest)
+  | h :: a :: b :: x :: y :: z :: ix :: iy :: iz :: rest => do
+    let id ← unhexBytes h
+    let x ← float? x
+    let y ← float? y
+    let z ← float? z
+    let ix ← ix.toNat?
+    let iy ← iy.toNat?
+    let iz ← iz.toNat?
+    let (ps, r) ← parseAPts rest
+    pure (⟨id.map (·.toNat), a = "1", b = "1", x, y, z, ix, iy, iz⟩ :: ps, r)
+  | _ => none
+
+def hexId (i : CId) : String := hexBytes (i.map UInt8.ofNat)
+
+/-- `dim v11 v12 … vdd |` : the matrix as the const `CovMat::operator()` returns it, row by row -/
+def parseMat : List String → Option (Nat × Array Float × List String)
+  | d :: rest => do
+    let dim ← d.toNat?
+    let (vs, r) := rest.span (· != "|")
+    let fs ← vs.mapM float?
+    pure (dim, fs.toArray, r.drop 1)
+  | _ => none
+
+def matAt (dim : Nat) (a : Array Float) (i j : Nat) : Float :=
+  if i = 0 ∨ j = 0 ∨ i > dim ∨ j > dim then 0 else a.getD ((i - 1) * dim + (j - 1)) 0
+
+def showCmp (r : Consumers.Report CId Float) : String :=
+  "\n".intercalate (r.rows.map (fun w =>
+      s!"row {hexId w.id} {showFloat w.x1} {showFloat w.y1} {showFloat w.z1} {showFloat w.dx} {showFloat w.dy} {showFloat w.dz}")
+    ++ [s!"max {showFloat r.DX} {showFloat r.DY} {showFloat r.DZ}",
+        s!"result {b01 r.failed} {showFloat r.absMax} exit {Consumers.exitCode r}"])
+
+def showDef (o : Consumers.DefOut CId Float) : String :=
+  "\n".intercalate (o.diffs.map (fun d =>
+      s!"row {hexId d.id} {d.indx} {d.indy} {d.indz} {showFloat d.dx} {showFloat d.dy} {showFloat d.dz} {showFloat d.x2} {showFloat d.y2} {showFloat d.z2}")
+    ++ [s!"cov {o.covIndex}", "t1 " ++ natList o.t1, "t2 " ++ natList o.t2]
+    ++ o.C.map (fun row => "C" ++ String.join (row.map (fun v => " " ++ showFloat v))))
+
 def step (_ : Unit) (line : String) : Unit × String :=
   match tokens line with
   | ["esc", h] =>
@@ -270,6 +318,31 @@ def step (_ : Unit) (line : String) : Unit × String :=
       match readAllObs recs with
       | .ok os => ((), "\n".intercalate (os.map showObsRec ++ ["end"]))
       | .error e => ((), "throw " ++ showRErr e)
+    | none => ((), "bad-op")
+  | "cmpxyz" :: tol :: rest =>
+    match float? tol, parseAPts rest with
+    | some tol, some (f1, r) =>
+      match parseAPts r with
+      | some (f2, _) => ((), showCmp (Consumers.compareXYZ Float.abs tol f1 f2))
+      | none => ((), "bad-op")
+    | _, _ => ((), "bad-op")
+  | "deform" :: rest =>
+    match parseAPts rest with
+    | some (p1, r1) =>
+      match parseMat r1 with
+      | some (d1, m1, r2) =>
+        match parseAPts r2 with
+        | some (p2, r3) =>
+          match parseMat r3 with
+          | some (d2, m2, _) =>
+            match Consumers.deformation ⟨p1, d1, matAt d1 m1⟩ ⟨p2, d2, matAt d2 m2⟩ with
+            | .ok o => ((), showDef o)
+            | .error .index1 => ((), "throw index1")
+            | .error .index2 => ((), "throw index2")
+            | .error .index12 => ((), "throw index12")
+          | none => ((), "bad-op")
+        | none => ((), "bad-op")
+      | none => ((), "bad-op")
     | none => ((), "bad-op")
   | _ => ((), "bad-op")
 
